@@ -30,7 +30,7 @@ pub enum RNode {
 pub struct Prog {
     pub nodes: Vec<RNode>,
     pub outputs: Vec<usize>,
-    /// name -> (offset, len), non-overlapping, all >= 1
+    /// name -> (offset, len), non-overlapping, offsets >= 1, lengths >= 0
     pub layout: Vec<(String, usize, usize)>,
     pub inputs_size: usize,
     pub shape: &'static str,
@@ -49,7 +49,9 @@ pub fn gen_prog(rng: &mut impl rand::RngCore, max_nodes: usize, shape_sel: usize
     let mut off = 1usize;
     let mut lens = vec![];
     for k in 0..n_named {
-        let len = match rng.gen_range(0..4) {
+        let len = match rng.gen_range(0..5) {
+            // a declared vector without elements (its entry of the input map still has to survive storage)
+            4 if k > 0 => 0,
             0 => 1,
             1 => 2,
             2 => rng.gen_range(1..6),
@@ -314,7 +316,7 @@ fn check_prog(rep: &mut Rep, ctx: &Ctx, rng: &mut impl rand::RngCore, p: &Prog) 
 }
 
 pub fn run(rep: &mut Rep) {
-    rep.rule = "random well-formed graphs: DAGs with backward references over {Input, MontConstant, 19 binary operators, Neg, TernCond}, 1..300 nodes (to 5000 in thorough), output lists with repeats, 0..4 named input vectors at arbitrary non-overlapping offsets (position 0 = constant 1); three layouts reported separately (inputs-first and constants-first = canonical, scattered Input nodes); each graph: serialize -> deserialize equality, calc_witness on the bytes with shuffled named inputs and graph::evaluate on the in-memory graph (also with constants held as plain integer nodes), 3 assignments each (boundary-heavy and random), compared with the big-integer reference interpreter. distinct_nontrivial = distinct (layout, size class, #named inputs, #operators) and (layout, operator used) keys".into();
+    rep.rule = "random well-formed graphs: DAGs with backward references over {Input, MontConstant, 19 binary operators, Neg, TernCond}, 1..300 nodes (to 5000 in thorough), output lists with repeats, 0..4 named input vectors (lengths 0..20) at arbitrary non-overlapping offsets (position 0 = constant 1); three layouts reported separately (inputs-first and constants-first = canonical, scattered Input nodes); each graph: serialize -> deserialize equality, calc_witness on the bytes with shuffled named inputs and graph::evaluate on the in-memory graph (also with constants held as plain integer nodes), 3 assignments each (boundary-heavy and random), compared with the big-integer reference interpreter. distinct_nontrivial = distinct (layout, size class, #named inputs, #operators) and (layout, operator used) keys".into();
     rep.assumptions = vec!["reference interpreter = circomref semantics applied node by node".into()];
     let thorough = rep.thorough();
     let nprogs = if thorough { 400_000 } else { 24_000 };
